@@ -264,3 +264,14 @@ proof fn lemma_bdepth_eq(a: Seq<(Range<Position>, Value, Vec<Node>)>, b: Seq<(Ra
 spec fn if_branches(k: ElementKind) -> Seq<(Range<Position>, Value, Vec<Node>)> {
     match k { ElementKind::If { branches, .. } => branches@, _ => Seq::empty() }
 }
+// ---- the second round of Template::parse: where the analysis starts ----
+spec fn script_name(s: Script) -> Seq<char> {
+    match s { Script::Inline { module_name, .. } => module_name.name@, Script::GlobalRef { module_name, .. } => module_name.name@ }
+}
+spec fn script_names(s: Seq<Script>) -> Seq<Seq<char>> { Seq::new(s.len(), |i: int| script_name(s[i])) }
+/// ASSUMED (iterator adapters): `scripts.iter().map(|x| (x.module_name().name.clone(), x.module_name().location())).collect()`
+#[verifier::external_body]
+fn vx_script_scopes(scripts: &Vec<Script>) -> (r: Vec<(CompactString, Range<Position>)>)
+    ensures names(r@) == script_names(scripts@),
+{ unimplemented!() }
+spec fn nodes_fit(s: Seq<Node>, idt: int) -> bool { forall|j: int| 0 <= j < s.len() ==> fits(#[trigger] s[j], idt) }
